@@ -16,6 +16,20 @@ def env(dialect):
     return _cache[dialect]
 
 
+_cache_names = {}
+
+
+def env_names(dialect):
+    """like env(), but shortest derivations prefer ID (then the other value tokens) over keyword terminals: name positions derive names"""
+    if dialect not in _cache_names:
+        lex, par = SW.dialect_classes(dialect)
+        rep, lexemes = ST.representatives(lex)
+        prefer = {t: 0.9 for t in AT.VALUE_TERMINALS}
+        prefer['ID'] = 0.8
+        _cache_names[dialect] = (AT.Deriv(par, prefer=prefer), par(), rep, lexemes, lex)
+    return _cache_names[dialect]
+
+
 def ok_str(s):
     for ch in s:
         if ch == "'" or ch == '"' or ch == '\\' or ch == '\n' or ch == '\r' or ch == '`':
